@@ -257,6 +257,30 @@ func (s *domState) check(a *Term) (bool, bool) {
 			continue
 		}
 		if c.nv != 1 || c.v1.w != 8 {
+			if c.op == "or" {
+				// DNF over independent byte variables: satisfiable iff some disjunct is, and a disjunct that is a
+				// conjunction of single-variable atoms is satisfiable iff each variable's domain admits it
+				// (complete when none of the variables occurs in a relational constraint and in no other conjunct).
+				dnfOK, anyFeasible := true, false
+				for _, dj := range c.args {
+					ok, feas := s.conjFeasible(dj, acc)
+					if !ok {
+						dnfOK = false
+						break
+					}
+					if feas {
+						anyFeasible = true
+					}
+				}
+				if dnfOK {
+					if !anyFeasible {
+						return true, false
+					}
+					if len(cs) == 1 {
+						return true, true
+					}
+				}
+			}
 			exact = false
 			continue
 		}
@@ -301,4 +325,42 @@ func (s *domState) apply(a *Term) {
 			s.rel[v] = true
 		}
 	}
+}
+
+// conjFeasible decides a conjunction of single-variable 8-bit atoms against the domains. ok=false if the
+// disjunct is not of that shape or touches a variable with relational constraints.
+func (s *domState) conjFeasible(t *Term, acc map[*Term]bitset) (ok bool, feasible bool) {
+	var buf [16]*Term
+	cs := buf[:0]
+	flatten(t, &cs)
+	var loc map[*Term]bitset
+	for _, c := range cs {
+		if c.IsConst() {
+			if !c.BoolVal() {
+				return true, false
+			}
+			continue
+		}
+		if c.nv != 1 || c.v1.w != 8 || s.rel[c.v1] {
+			return false, true
+		}
+		v := c.v1
+		cur, have := loc[v]
+		if !have {
+			if a, inAcc := acc[v]; inAcc {
+				cur = a
+			} else {
+				cur = s.get(v)
+			}
+		}
+		cur = cur.and(setOf(c))
+		if cur.empty() {
+			return true, false
+		}
+		if loc == nil {
+			loc = map[*Term]bitset{}
+		}
+		loc[v] = cur
+	}
+	return true, true
 }
